@@ -30,7 +30,7 @@ def inputs():
     b7 = [B.P(7), B.I("DUP2"), B.I("MSTORE"), B.P(7), B.I("DUP2"), B.P(1), B.I("ADD"), B.I("MSTORE"), B.I("POP"),
           B.I("STOP")]
     yield "syn1", docs.make_doc({"a.sol:A": docs.make_contract([b4, b5], [b1, b2, b3])})
-    yield "syn2", docs.make_doc({"a.sol:A": docs.make_contract([b5], [b6, b7, b2])})
+    yield "syn2", docs.make_doc({"a.sol:A": docs.make_contract([b5], [b6, b7, b2], more_run_blocks=([b3, b1],))})
     yield "syn3", docs.make_doc({"a.sol:A": docs.make_contract([b4], [b3, b1]),
                                 "a.sol:B": docs.make_contract([b5], [b2, b7, b6])})
 
